@@ -42,6 +42,31 @@ def cfg_with(**kw):
     return c
 
 
+_SWARM_P = [0.0, 0.05, 0.15, 0.3, 0.5, 0.8]
+_SWARM_RANGES = {"nmain": [(1, 1), (1, 3), (2, 4)], "nframes": [(1, 3), (1, 6), (2, 7), (4, 9)], "naux": [(0, 0), (0, 2), (1, 2), (1, 3)],
+                 "nslaves": [(0, 0), (0, 1), (1, 2)], "ticks": [(4, 12), (6, 30), (20, 60)]}
+
+
+def swarm_cfg(g, base):
+    """Swarm-style variation of a check's own configuration (thorough tier): every run first draws which knobs keep the
+    check's value and which are re-drawn from a coarse grid, so feature combinations no single fixed configuration produces
+    (markers with conditional auxiliaries, named done verbs with staged slaves, deep forests with many auxiliaries, long
+    runs of tiny programs ...) are explored as well.  Tick periods are never changed: binary-exact periods are a stated
+    assumption of every check but C11."""
+    c = dict(base)
+    for k, v in base.items():
+        if k.startswith("p_") and isinstance(v, float) and g.random() < 0.4:
+            c[k] = g.choice(_SWARM_P)
+    for k, choices in _SWARM_RANGES.items():
+        if g.random() < 0.4:
+            c[k] = g.choice(choices)
+    if g.random() < 0.3:
+        c["depth"] = g.choice([1, 2, 3, 4, 5])
+    if g.random() < 0.2:
+        c["go_targets"] = g.choice(["any", "names"])
+    return c
+
+
 def _cmp_need(g, neg_ok=True):
     n = {"t": "cmp", "path": g.choice(SHARES), "op": g.choice(["==", "!=", "<", "<=", ">=", ">"]), "goal": g.randint(0, 4)}
     if neg_ok and g.random() < 0.15:
@@ -86,7 +111,7 @@ def _need(g, cfg, framer_names, P, allow_marker=True, aux_names=()):
 
 def _frames(g, cfg, prefix, framer_names, P, aux_names, slave_names, is_aux=False, all_tasks=()):
     lo, hi = cfg["nframes"]
-    n = g.randint(lo, hi if not is_aux else min(hi, 3))
+    n = g.randint(lo, hi) if not is_aux else g.randint(min(lo, 3), min(hi, 3))
     frames = []
     depth = {}
     for i in range(n):
